@@ -779,6 +779,10 @@ func (w *spWorld) chaosOp(st spStep) {
 		_ = w.ss.s.EnablePeer(ctx, &api.EnablePeerRequest{Address: addr})
 	case "DelPeer":
 		_ = w.ss.s.DeletePeer(ctx, &api.DeletePeerRequest{Address: addr})
+	case "ResetBurst":
+		for i := 0; i < 3; i++ {
+			_ = w.ss.s.ResetPeer(ctx, &api.ResetPeerRequest{Address: addr, Communication: "verif"})
+		}
 	case "AddPeer":
 		pi := w.pinfo[st.P]
 		_ = w.ss.s.AddPeer(ctx, &api.AddPeerRequest{Peer: &api.Peer{
